@@ -18,3 +18,10 @@ check("C04",
   "For every generated (formula, categorical flavour, row order) the real pipeline runs once on a complete-factorial frame whose numeric cells are z3 reals; every entry of the common, group-specific and categorical-response matrices must equal, as a polynomial identity decided by z3, the meaning of its column label (indicator products times numeric cells, e|g[l] blocks); label count, uniqueness and sorted/declared level order are checked on the same run. One run covers every frame with those level sets and any numeric values.",
   "Trusted: LabelMeaning oracle (vf/gen.py), z3, the three stubs listed in evidence (is_numeric_dtype for Sym columns, numpy shim in formulae.transforms, logging). Formulas/flavours/orders are enumerated, not symbolic. Reals, not floats.",
   "DESIGN.md section 4 C04")
+
+check("C06",
+  "symbolic execution of the real design_matrices + evaluate_new_data on z3-real numeric cells; new rows == training rows as z3 terms",
+  "model_checking",
+  "For every generated (formula, flavour) the real pipeline builds the design on a complete-factorial training frame whose numeric cells are z3 reals, then evaluates common and group matrices on row multisets of that frame (singles, repetition, reversed, subsets lacking a level). The new matrix must equal the selected training rows as z3 terms: a re-estimated mean/std/first value/level set yields a different term and a two-row model, which is replayed on floats. Branches on symbolic values (e.g. truthiness of a fitted mean) are explored exhaustively.",
+  "Trusted: z3; stubs listed in evidence. bs()/orthogonal poly run on concrete floats (FITPACK / float buffer) and only their exact row identity and params_set are checked there. Definitional constraints of quotients / square roots are added lazily (only when an obligation needs them). One known finding (binary() refuses absent level on new rows).",
+  "DESIGN.md section 4 C06")
